@@ -21,6 +21,7 @@ import (
 	"fmt"
 	"io"
 	"sort"
+	"strings"
 	"time"
 
 	bfuse "bazil.org/fuse"
@@ -54,6 +55,91 @@ type fuseRes struct {
 	data  []byte
 	err   error
 	panic string
+}
+
+// asyncOp: a consumer call that may block while the queue of the held loop is full (that is
+// correct behaviour); it must complete once the loop runs again.
+type asyncOp struct {
+	what string
+	done chan struct{}
+	fin  func() // bookkeeping once it has returned (harness goroutine)
+}
+
+func (ru *Runner) noteVerified(i int) {
+	if ru.verTotal == nil {
+		ru.verTotal = map[int]int{}
+	}
+	ru.verTotal[i]++
+}
+
+func (ru *Runner) async(what string, f func(), fin func()) {
+	a := &asyncOp{what: what, done: make(chan struct{}), fin: fin}
+	ru.asyncs = append(ru.asyncs, a)
+	go func() {
+		defer close(a.done)
+		if p := vhlib.Recover(f); p != "" {
+			a.what = "PANIC " + p + " in " + a.what
+		}
+	}()
+	if !ru.S.Held() {
+		ru.waitAsyncs()
+	} else {
+		time.Sleep(200 * time.Microsecond) // let it reach the queue (schedule choice only)
+	}
+}
+
+func (ru *Runner) waitAsyncs() {
+	for _, a := range ru.asyncs {
+		select {
+		case <-a.done:
+			if strings.HasPrefix(a.what, "PANIC") {
+				ru.violate("panic:consumer", a.what)
+			} else if a.fin != nil {
+				a.fin()
+			}
+		case <-time.After(ru.Watchdog):
+			ru.violate("hang:consumer", fmt.Sprintf("%s did not return although the event loop is running again", a.what))
+		}
+	}
+	ru.asyncs = nil
+}
+
+// xDirect: wake-up oracle for the channels handed to direct consumers in an oracle-only
+// section, evaluated at quiescence: closed only if its piece was verified since, or the
+// wait was abandoned (entry gone); verified since => closed.
+func (ru *Runner) xDirect(snap []tor.VerifRequestedPiece) {
+	present := map[int]bool{}
+	for _, e := range snap {
+		present[int(e.Index)] = true
+	}
+	for k, d := range ru.direct {
+		verified := ru.verTotal[d.piece] > d.verAt
+		cl := isClosed(d.ch)
+		if cl && d.closedAt < 0 {
+			d.closedAt = len(ru.Lines)
+			if !verified && present[d.piece] && !d.gaveUp {
+				ru.violate("wake:unjustified", fmt.Sprintf("channel #%d of piece %d is closed although the piece has not been verified since it was handed out and is still requested", k, d.piece))
+			}
+		}
+		if !cl && verified {
+			ru.violate("wake:lost:direct", fmt.Sprintf("channel #%d of piece %d still open although the piece was verified and every notification handled", k, d.piece))
+		}
+	}
+}
+
+// xNotify (fake peer): one TorHave(i, true) per successful verification of piece i.
+func (ru *Runner) xNotify() {
+	if ru.S.Fake == nil || ru.dead {
+		return
+	}
+	for i := ru.S.Lo; i <= ru.S.Hi; i++ {
+		h, v := ru.S.HaveCount(uint32(i)), ru.verTotal[i]
+		if h > v {
+			ru.violate("notify:duplicate", fmt.Sprintf("piece %d: %d completion notifications handled for %d successful verifications", i, h, v))
+		} else if h < v {
+			ru.violate("notify:missing", fmt.Sprintf("piece %d: %d completion notifications handled for %d successful verifications", i, h, v))
+		}
+	}
 }
 
 func (ru *Runner) execX(ws []string) {
@@ -140,7 +226,7 @@ func (ru *Runner) execX(ws []string) {
 		if ru.S.Held() {
 			// wait until the Read has queued its request (or has returned without
 			// needing the loop); only the choice of schedule depends on this wait
-			for t := 0; t < 4000 && len(ru.S.T.Event) <= before && len(res) == 0; t++ {
+			for t := 0; t < 4000 && len(ru.S.T.Event) <= before && before < cap(ru.S.T.Event) && len(res) == 0; t++ {
 				time.Sleep(500 * time.Microsecond)
 			}
 		} else {
@@ -150,6 +236,7 @@ func (ru *Runner) execX(ws []string) {
 		if i, ok := piece(2); ok {
 			if done, _ := ru.S.Verify(i); done {
 				ru.complete[i] = true
+				ru.noteVerified(int(i))
 				ru.finPend = append(ru.finPend, i)
 				if !ru.S.Held() {
 					ru.S.T.Have(i, true)
@@ -162,6 +249,7 @@ func (ru *Runner) execX(ws []string) {
 		if i, ok := piece(2); ok {
 			if done, _ := ru.S.Complete(i); done {
 				ru.complete[i] = true
+				ru.noteVerified(int(i))
 			}
 			sync()
 		}
@@ -197,11 +285,86 @@ func (ru *Runner) execX(ws []string) {
 				rs.closed = true
 			}
 		}
+	case "fill":
+		if ru.S.Held() {
+			ru.S.Fill()
+			ru.tag("x:fill")
+		}
+	case "aclose":
+		if rid, ok := num(2); ok {
+			if rs := ru.readers[int(rid)]; rs != nil && rs.pend == nil && !rs.closed {
+				rs.closed = true
+				ru.async(fmt.Sprintf("Close of reader %d", rid), func() { rs.r.Close() }, func() {
+					if reqs, _, _ := rs.r.VerifRequested(); len(reqs) != 0 {
+						ru.violate("leak:after-close", fmt.Sprintf("reader %d still holds %v after Close", rs.rid, reqs))
+					}
+				})
+				ru.tag("x:aclose")
+			}
+		}
+	case "treq":
+		// `rdx treq i p request want`: a direct consumer; may block while the queue is full
+		i, ok1 := num(2)
+		p, ok2 := num(3)
+		if !(ok1 && ok2) || len(ws) != 6 || i < 0 || int(i) >= ru.S.N || p < -127 || p > 127 {
+			return
+		}
+		request, want := ws[4] == "1", ws[5] == "1"
+		key := [2]int{int(i), int(p)}
+		if !request {
+			if ru.holds[key] <= 0 {
+				return
+			}
+			ru.holds[key]--
+			for _, dc := range ru.direct {
+				if dc.piece == int(i) && dc.prio == int(p) && !dc.gaveUp {
+					dc.gaveUp = true // the wait is abandoned by the consumer itself
+					break
+				}
+			}
+		}
+		var d bool
+		var ch <-chan struct{}
+		var err error
+		verAt := ru.verTotal[int(i)]
+		ru.async(fmt.Sprintf("Torrent.Request(%d,%d,%v,%v)", i, p, request, want),
+			func() { d, ch, err = ru.S.T.Request(uint32(i), int8(p), request, want) },
+			func() {
+				if request && d && err == nil {
+					ru.holds[key]++
+				}
+				if ch != nil {
+					ru.direct = append(ru.direct, &directCh{ch: ch, piece: int(i), closedAt: -1, verAt: verAt, prio: int(p)})
+				}
+			})
+		ru.tag("x:treq")
+	case "tdata":
+		// `rdx tdata i wrong k`: the last block of piece i arrives k times (k peers) through
+		// the real TorData handler and the real finalisePiece goroutines
+		i, ok := piece(2)
+		wrong, ok2 := num(3)
+		k, ok3 := num(4)
+		if !(ok && ok2 && ok3) || k < 1 || k > 3 || int(i) < ru.S.Lo || int(i) > ru.S.Hi || ru.S.Held() || ru.dead {
+			return
+		}
+		before := ru.S.T.Pieces.Complete(i)
+		ru.S.LastBlock(i, wrong == 1, int(k))
+		ru.S.Quiesce()
+		if now := ru.S.T.Pieces.Complete(i); now && !before {
+			if wrong == 1 {
+				ru.violate("verify:corrupt-accepted", fmt.Sprintf("piece %d with a wrong block passed verification", i))
+			}
+			ru.complete[i] = true
+			ru.noteVerified(int(i))
+		}
+		ru.tag("x:tdata")
 	case "settle":
 		// the loop runs: every Read in flight returns, or stays parked for a reason
 		if ru.S.Held() {
 			ru.S.Release(nil)
 		}
+		sync()
+		ru.waitAsyncs()
 		sync()
 		var rids []int
 		for rid, rs := range ru.readers {
@@ -223,7 +386,10 @@ func (ru *Runner) execX(ws []string) {
 		if !ru.dead {
 			if snap, ok := ru.S.Snapshot(); ok {
 				ru.checkBalance(snap)
+				ru.xDirect(snap)
+				ru.lastSnap = snap
 			}
+			ru.xNotify()
 		}
 		ru.tag("x:settle")
 	case "fopen":
@@ -337,7 +503,7 @@ func (ru *Runner) fuseFinish(fr *fuseRead, x fuseRes) {
 	}
 	var want []byte
 	if fr.off < end {
-		want = ru.S.Content[fh.foff+fr.off : fh.foff+end]
+		want = ru.S.Ref(fh.foff+fr.off, fh.foff+end)
 	}
 	if string(want) != string(x.data) {
 		ru.violate("fuse:bytes-mismatch", fmt.Sprintf("read #%d off %d size %d of file(%d,%d): got %d bytes, want %d, or contents differ", fr.id, fr.off, fr.size, fh.foff, fh.flen, len(x.data), len(want)))
@@ -458,6 +624,9 @@ func (ru *Runner) fuseRelease(ws []string) {
 func (ru *Runner) closeFuse() {
 	if ru.S != nil && ru.S.Held() {
 		ru.S.Release(nil)
+	}
+	if ru.S != nil {
+		ru.waitAsyncs()
 	}
 	var ids []int
 	for id, fr := range ru.fuseR {
